@@ -622,5 +622,8 @@ class Interp:
                 else:
                     raise Unsupported("%s consumes a tensor with elements outside the producer's domain" % o["code"])
             for t, v in zip(o["outputs"], outs):
+                want = self.T[t]["shape"]
+                if isinstance(v, np.ndarray) and want is not None and list(v.shape) != list(want) and v.size == int(np.prod(want)):
+                    v = v.reshape(want)  # kernels that work on a flattened view (FULLY_CONNECTED with keep_num_dims)
                 values[t] = v
         return values
